@@ -117,7 +117,7 @@ fn weight(ops: &[Op]) -> usize {
 fn retarget_thread(o: &Op) -> Op {
     let mut o = o.clone();
     match &mut o {
-        Op::Create { t, .. } | Op::Migrate { t, .. } | Op::FreshThread { t } | Op::Pollute { t, .. } | Op::Dist { t, .. } | Op::Jacc { t, .. } | Op::WMatch { t, .. } => *t = 0,
+        Op::Create { t, .. } | Op::Migrate { t, .. } | Op::FreshThread { t } | Op::Pollute { t, .. } | Op::Dist { t, .. } | Op::Jacc { t, .. } | Op::WMatch { t, .. } | Op::JCheck { t, .. } | Op::Burst { t, .. } => *t = 0,
         // registry ids are per thread: leave registry ops where they are
         _ => {}
     }
@@ -327,6 +327,14 @@ fn simplifications(op: &Op) -> Vec<Op> {
             }
             for x in shrink_string(b) {
                 out.push(Op::Jacc { t: *t, a: a.clone(), b: x });
+            }
+        }
+        Op::JCheck { t, r, q, fin } => {
+            for x in shrink_string(r) {
+                out.push(Op::JCheck { t: *t, r: x, q: q.clone(), fin: *fin });
+            }
+            for x in shrink_string(q) {
+                out.push(Op::JCheck { t: *t, r: r.clone(), q: x, fin: *fin });
             }
         }
         Op::WMatch { t, r, q, fin } => {
